@@ -36,6 +36,7 @@ type World struct {
 	cg       *callgraph.Graph
 	useVTA   bool
 	allFuncs map[*ssa.Function]bool
+	addrTaken map[*ssa.Function]bool
 	srcFuncs []*ssa.Function // functions with source in repo packages (non-generated: not internal/grammar)
 }
 
